@@ -9,6 +9,8 @@ import NeoModel.Proofs.MptCanonical
 import NeoModel.Proofs.MptBatch
 import NeoModel.Proofs.MptHistory
 import NeoModel.Proofs.MptProofs
+import NeoModel.Proofs.MptSeek
+import NeoModel.Proofs.MptKeys
 namespace NeoModel.C10
 open NeoModel.Mpt
 
@@ -184,5 +186,65 @@ example : lookup exT (toNibbles [0x12]) = some [7] :=
 theorem bounded_of_contents (t : Node) (hw : WF t)
     (h : ∀ p v, lookup t p = some v → p.length ≤ maxPathLength ∧ v.length ≤ maxValueLength) : Bounded t :=
   Mpt.bounded_of_contents t hw h
+
+/-! ## 6. ordered reads agree with the contents -/
+
+/-- `entries t` is the contents of `t` as a list … -/
+theorem mem_entries (t : Node) (p : Path) (v : Val) : (p, v) ∈ entries t ↔ lookup t p = some v :=
+  Mpt.mem_entries t p v
+
+/-- … in strictly ascending key order (bytes.Compare on the nibble paths, which is the byte order
+of the keys). -/
+theorem entries_sorted (t : Node) : (entries t).Pairwise (fun a b => pathLt a.1 b.1 = true) :=
+  Mpt.entries_sorted t
+
+/-- C10.5a: `Billet.traverse` (forwards and backwards, with any start position `frm`) reports exactly
+the entries in range — forwards the keys ≥ `frm`, backwards the keys ≤ `frm` or extending `frm` —
+in key order, reversed when going backwards. -/
+theorem traverse_spec (back : Bool) (t : Node) (path frm : Path) :
+    traverse back t path frm =
+      dir back (((entries t).filter (fun e => inRange back frm e.1)).map (rel path)) :=
+  Mpt.traverse_spec back t path frm
+
+/-- C10.5b: `TrieStore.Seek(Prefix, Start, Backwards)` = the keys under the prefix (relative to it)
+that are in range of `Start`, ascending or descending: the same answer `MemoryStore.seek` gives on
+the same contents. -/
+theorem seek_spec (t : Node) (pre fromP : Path) (back : Bool) :
+    seek t pre fromP back = dir back ((under t pre).filter (fun e => inRange back fromP e.1)) :=
+  Mpt.seek_spec t pre fromP back
+
+/-- C10.5c: `Trie.Find(prefix, from, maxNum)`, when it succeeds, returns the first `maxNum` keys under
+the prefix that come strictly after `from` (all of them without `from`), ascending; it fails only
+if no key has the prefix. (`maxNum ≥ 1` in the code: with 0 the real stop test fires one node late.) -/
+theorem find_spec (t : Node) (pre : Path) (frm : Option Path) (maxNum : Nat) :
+    (∀ l, find t pre frm maxNum = some l → l = ((under t pre).filter (fun e => after frm e.1)).take maxNum) ∧
+    (find t pre frm maxNum = none → under t pre = []) :=
+  ⟨fun l h => Mpt.find_some t pre frm maxNum l h, Mpt.find_none t pre frm maxNum⟩
+
+-- non-vacuity (keys 12, 1205, 1207, 1230, 11 — the backward seek of DESIGN §6 item 10): the model
+-- evaluates to the specified answer, and the start position is a proper extension of key 12.
+def exS : Node := run [.put [1,2] [1], .put [1,2,0,5] [2], .put [1,2,0,7] [3], .put [1,2,3,0] [4], .put [1,1] [5]]
+
+example : seek exS [] [1,2,0,6] true = [([1,2,0,5], [2]), ([1,2], [1]), ([1,1], [5])] := by decide
+example : (find exS [1,2] (some [0,5]) 10) = some [([0,7], [3]), ([3,0], [4])] := by decide
+
+/-! ## 7. keys are bytes -/
+
+/-- the byte order of keys (bytes.Compare) is the order of their nibble paths used above … -/
+theorem pathLt_toNibbles (a b : Bytes) : pathLt (toNibbles a) (toNibbles b) = bytesLt a b :=
+  Mpt.pathLt_toNibbles a b
+
+/-- … and different keys have different paths. -/
+theorem toNibbles_inj {a b : Bytes} (h : toNibbles a = toNibbles b) : a = b := Mpt.toNibbles_inj h
+
+/-- batch.go:19-32: `MapToMPTBatch` of a map yields a batch strictly sorted by key (so that the runs of
+equal first nibble that `iterateBatch` walks are the per-nibble groups of the model), with the same
+pairwise different keys. -/
+theorem sorted_of_mapToBatch (m : List KV) (hd : DistinctKeys m) :
+    (mapToBatch m).Pairwise (fun a b => pathLt a.1 b.1 = true) ∧ DistinctKeys (mapToBatch m) :=
+  ⟨Mpt.sorted_of_mapToBatch m hd, Mpt.distinct_mapToBatch hd⟩
+
+example : mapToBatch [([1,3], none), ([1,2], some [1]), ([], some [])] = [([], some []), ([1,2], some [1]), ([1,3], none)] := by
+  decide
 
 end NeoModel.C10
